@@ -208,6 +208,33 @@ PROPS = {
         ],
         "level_text": "Lean theorems C05_tcp / C05_udp / C05_icmp / C05_arp: for every well-formed request, all 2^9 TCP flag sets, every TTL / IP flags / protocol / type / code, every payload byte string up to the IPv4 maximum (induction-free RFC 1071 argument over the byte list, odd lengths included), every value of the random draws and both link modes, the frame read back by an independent RFC 791/793/768/792/826 offset reader carries exactly the requested MACs, addresses, port, flags, TTL, IP flags, type/code and payload; IPv4 header checksum and TCP/UDP (pseudo-header) / ICMP checksums verify; total length, IHL, data offset, UDP length, Ethernet padding are consistent, and --iplen / --ipproto appear verbatim with every other field unchanged (UDP length included, D14 fixed); IP id in 1..65535, source port in 32768..60999 with the draw ranges regenerated from the source (C05_draws). C05_vpn_same_datagram*: the VPN frame is the Ethernet frame minus header and padding. C05_refused_*: non-IPv4 addresses / bad MACs give an error, never a frame. CLI side: C05_cli_tcp_flags / C05_tcp_cli (the flag set the command's filler gets from the accepted --flags names, through the regenerated option table, is the set the names denote and is what the header carries), C05_subcommand_flags (tcp syn/fin/null/xmas give SYN / FIN / none / FIN+PSH+URG, over the option lists regenerated from command/tcp_*.go), C05_cli_ipflags (parsed --ipflags fit the field) composed with C18's parser theorems. Tied to the code by running the real Fill of all four fillers (built through the commands' own option wiring) into a dirty buffer and comparing every byte with the model, exhaustively over 2^9 flag sets x 2 link modes, a corner grid of payload lengths x option extremes, the IPv4 maximum payload, and a search of millions of frames of one seeded random stream for ids/ports at or beyond the ends of their ranges; the parse component drives flag names through the real filler (ptcpflags).",
         "level_note": "Trusted: Lean kernel; the gopacket serializer model is validated differentially on every run (byte-exact), not proved; sxfacts for the draw ranges and the flag table.",
+    "C11": {
+        "modules": ["SxVerif.Props.C11"],
+        "components": ["arpcache"],
+        "trusted_base": [
+            "modelled, not verified: net.IP.String / HardwareAddr.String for 4/6-byte values, net.ParseIP for colon-free text and the ::ffff:a.b.c.d spelling (go1.23 parseIPv4Fields), net.ParseMAC (all three textual forms), bufio.Scanner line splitting (lines below 64 KiB), easyjson's jlexer for arp.ScanResult as the RFC 8259 reader of Spec/Json plus the decoder loop (string-typed ip/mac/vendor, null skipped, unknown keys skipped, repeated key overwrites) — Model/ArpCache.lean; validated on every run through the real ARP processor, encoder, FillCache and cache request generator",
+            "other IPv6 text in a cache file and 8/20-byte MACs are outside the model (never printed by the ARP scan); jlexer's leniency on malformed JSON (e.g. trailing commas) is not modelled: the harness's malformed lines are non-objects and truncated objects",
+            "cache writers regenerated from the tree by sxfacts (Generated/ArpCacheFacts.lean); cacheReqGenerator model shared with C13 (Model/Gen.lean)",
+        ],
+        "assumptions": ["sync.RWMutex meets its contract (concurrent Gets of an unchanging map return the stored value)",
+                        "the vendor table lookup returns some string (any bytes allowed)"],
+        "level_text": "Lean theorems C11_ip_roundtrip / C11_mac_roundtrip (dotted-quad and MAC rendering parse back for all 2^32 / 2^48 values, by structure of the digit rendering), C11_line_loads (the line printed for any ARP reply, with any vendor string, is accepted by the loader and yields exactly {printed address -> printed MAC}; built on C14's ARP-line theorem), C11_load_in_order / C11_last_wins (either spelling), C11_unknown_fields_skipped, C11_stage_choice / C11_never_foreign_mac (own entry, else gateway, else error; error requests untouched) and C11_cache_immutable_during_scan over writer facts regenerated from the tree. Tied to the code by ARP replies through the real processor -> real MarshalJSON -> real FillCache -> real NewCacheRequestGenerator, and by random cache files with duplicates, ::ffff: spellings, extra/null/repeated fields and malformed addresses.",
+        "level_note": "Trusted: Lean kernel; the stdlib parser/printer models and the jlexer abstraction are validated differentially, not proved; concurrency is reduced to immutability of the cache after option parsing (generated fact) plus the RWMutex contract; -race run not included.",
+    },
+    "C14": {
+        "modules": ["SxVerif.Props.C14"],
+        "components": ["json"],
+        "trusted_base": [
+            "modelled, not verified: easyjson v0.7.7 jwriter.Writer.String / Uint8 / Uint16 and go1.23 encoding/json appendString (escapeHTML on), strconv.AppendInt/AppendUint, utf8.DecodeRuneInString (Model/Json.lean; validated byte-for-byte on every run, incl. all 256 single bytes through both escapers)",
+            "encoding/json's reflection walk (struct tags, omitempty, nil map/slice/pointer = null, Marshaler types such as time.Time, []byte = base64, float64 formatting) is NOT modelled: the harness computes the value tree it walks (goVal in harness/cmd/sxdiff/json.go, floatEncoder copied verbatim) and the model renders that tree (sorting Go maps); the theorems cover every well-formed tree",
+            "JSONResultWriter.Write / LogResults call structure regenerated from command/log by sxfacts (Generated/JsonWriter.lean)",
+        ],
+        "assumptions": ["fmt.Fprintf performs a single Write on its writer per call (fmt's documented buffering: the formatted text is handed to w.Write once)",
+                        "strings inside server-supplied values (elastic maps, docker Info/Version) are valid UTF-8: they are produced by encoding/json's decoder, which replaces invalid bytes by U+FFFD (the harness feeds invalid bytes through the real decoder)",
+                        "float64 literals written by encoding/json obey RFC 8259's number grammar (checked on every generated value: resultWf is part of the verdict)",
+                        "MarshalJSON does not fail (no NaN/Inf or cyclic values: unreachable from a JSON decoder); the channel is read by one logger goroutine"],
+        "level_text": "Lean theorems C14_string_easyjson / C14_string_encodingjson (the independent JSON reader undoes both string escapers on every byte string), C14_integer, C14_value (every value tree of any depth), C14_arp/_tcp/_icmp/_socks/_elastic/_docker (the line of each result type reads back as exactly the documented keys and field values, for all field strings and all trees), C14_any_bytes_partial (invalid UTF-8: still one complete object, value read back sanitised), C14_single_line, C14_writes_in_order / C14_output_lines (output = the lines in channel order, one write each), C14_uniq_* (de-duplication = first occurrences by ID: every ID once, at its first sighting, order kept) and C14_one_write_per_result over facts regenerated from command/log. Tied to the code by random hostile results of all 7 kinds through the real MarshalJSON and the real Logger/UniqueLogger (byte-for-byte and write-for-write), with the Spec reader evaluated on the real bytes.",
+        "level_note": "Trusted: Lean kernel; the escaper / strconv models and the harness-side reflection walk are validated differentially on every run, not proved; invalid UTF-8 in flat fields is covered by the weaker _partial statement (sanitised value).",
     },
     "C18": {
         "modules": ["SxVerif.Props.C18"],
